@@ -12,6 +12,9 @@ type SchemaOpts struct {
 	Root     interface{}
 	BasePath string
 	_        struct{}
+
+	// $refs being resolved up the call chain: guards against containers of themselves
+	refsInProgress map[string]struct{}
 }
 
 // Schema analysis, will classify the schema according to known
@@ -27,6 +30,8 @@ func Schema(opts SchemaOpts) (*AnalyzedSchema, error) {
 		schema:   opts.Schema,
 		root:     opts.Root,
 		basePath: opts.BasePath,
+
+		refsInProgress: opts.refsInProgress,
 	}
 
 	a.initializeFlags()
@@ -57,6 +62,8 @@ type AnalyzedSchema struct {
 	schema   *spec.Schema
 	root     interface{}
 	basePath string
+
+	refsInProgress map[string]struct{}
 
 	hasProps           bool
 	hasAllOf           bool
@@ -105,6 +112,18 @@ func (a *AnalyzedSchema) inherits(other *AnalyzedSchema) {
 
 func (a *AnalyzedSchema) inferFromRef() error {
 	if a.hasRef {
+		key := a.schema.Ref.String()
+		if _, isCyclic := a.refsInProgress[key]; isCyclic {
+			// an array or a map of itself: stop here, the container is not a simple one
+			return nil
+		}
+
+		inProgress := make(map[string]struct{}, len(a.refsInProgress)+1)
+		for k := range a.refsInProgress {
+			inProgress[k] = struct{}{}
+		}
+		inProgress[key] = struct{}{}
+
 		sch := new(spec.Schema)
 		sch.Ref = a.schema.Ref
 		err := spec.ExpandSchema(sch, a.root, nil)
@@ -115,6 +134,8 @@ func (a *AnalyzedSchema) inferFromRef() error {
 			Schema:   sch,
 			Root:     a.root,
 			BasePath: a.basePath,
+
+			refsInProgress: inProgress,
 		})
 		if err != nil {
 			// NOTE(fredbi): currently the only cause for errors is
@@ -163,6 +184,8 @@ func (a *AnalyzedSchema) inferMap() error {
 			Schema:   a.schema.AdditionalProperties.Schema,
 			Root:     a.root,
 			BasePath: a.basePath,
+
+			refsInProgress: a.refsInProgress,
 		})
 		if err != nil {
 			return err
@@ -190,6 +213,8 @@ func (a *AnalyzedSchema) inferArray() error {
 				Schema:   a.schema.Items.Schema,
 				Root:     a.root,
 				BasePath: a.basePath,
+
+				refsInProgress: a.refsInProgress,
 			})
 			if err != nil {
 				return err
